@@ -355,7 +355,15 @@ def mk_rate_classes(kind, nbins, _replay=None):
         wv = numpy.array([_replay[f"w{i}"] for i in range(nbins)])
         vv = numpy.array([_replay[f"v{i}"] for i in range(nbins)])
         if kind == "gamma":
-            return {"status": "not_reproduced", "detail": "gamma uses a stub for gdtri"}
+            # the real GammaDefn.calc with the real scipy gdtri: the counterexample's bin probabilities, its shape and two others
+            # (the stub medians of the symbolic run are not realisable as such; the identity must hold for every shape)
+            bad = []
+            for shape in [float(_replay.get("shape", 1.0)) if float(_replay.get("shape", 1.0)) > 0 else 1.0, 0.5, 2.0]:
+                out = D.GammaDefn.calc(None, wv, shape)
+                tot = float((wv * out).sum())
+                if abs(tot - 1) > 1e-9 or any(out[i] > out[i + 1] + 1e-12 for i in range(nbins - 1)):
+                    bad.append(f"shape={shape}: bprobs={list(wv)} rates={list(out)} sum(bprobs*rates)={tot}")
+            return {"status": "reproduced" if bad else "not_reproduced", "detail": "; ".join(bad)[:500]}
         out = {"weighted": D.WeightedPartitionDefn.calc, "monotonic": D.MonotonicDefn.calc}[kind](None, wv, vv)
         bad = abs((wv * out).sum() - 1) > 1e-9 or (kind == "monotonic" and any(out[i] > out[i + 1] + 1e-12 for i in range(nbins - 1)))
         return {"status": "reproduced" if bad else "not_reproduced", "detail": str(out)}
@@ -386,7 +394,7 @@ def mk_rate_classes(kind, nbins, _replay=None):
         return {"status": "cex" if str(s.check()) == "sat" else "inconclusive", "cex": {"twin": "assumptions satisfiable"}}
     r, m, dt = psx.check_valid(paths[0].assertions, z3.And(*claim), timeout_ms=120000)
     if r == "sat":
-        return {"status": "cex", "cex": {str(v): psx.model_float(m, v) for v in ws + vs}, "queries": 1}
+        return {"status": "cex", "cex": {str(v): psx.model_float(m, v) for v in ws + vs + ([z3.Real("shape")] if kind == "gamma" else [])}, "queries": 1}
     if r != "unsat":
         return {"status": "inconclusive", "detail": f"z3 {r}"}
     return {"status": "holds", "queries": 1, "paths": 1, "solver_s": round(time.time() - t0, 2)}
